@@ -105,11 +105,12 @@ Theorem C16_beep_target_given : forall f, qle qhalf f = true -> clamph f = f.
 Proof. exact beep_target_given. Qed.
 Print Assumptions C16_beep_target_given.
 
-(* ---- sweep.  n = max(1, trunc steps) (refutation for steps <= 0 below: F-C16-sweep-steps-clamped is still
-   a finding).  The duration clause is unconditional: it was partial (d >= 0, floor d < 2^24) before the repair
-   of F-C16-negative-runtime-duration and F-C16-sweep-float-duration-overshoot. *)
+(* ---- sweep.  n = max(0, trunc steps): a sweep of `steps` steps, none when steps <= 0 (it was max(1, ..) before
+   the repair of F-C16-sweep-steps-clamped; C16_sweep_nonpositive_steps below).  "Ending on the end frequency"
+   needs a tone to end on, hence 1 <= n there.  The duration clause is unconditional: it was partial (d >= 0,
+   floor d < 2^24) before the repair of F-C16-negative-runtime-duration and F-C16-sweep-float-duration-overshoot. *)
 Theorem C16_sweep : forall pin tbl st s e d steps,
-  let n := Z.max 1 (c_int steps) in
+  let n := Z.max 0 (c_int steps) in
   let tr := snd (dstep pin tbl st (Sweep s e d steps)) in
   tones tr = map tone_of (positives (sweep_freqs (clamp0 s) (clamp0 e) n)) /\
   (length (tones tr) <= Z.to_nat n)%nat /\
@@ -119,16 +120,16 @@ Theorem C16_sweep : forall pin tbl st s e d steps,
   ((clamp0 s <= clamp0 e)%Q -> StronglySorted Z.le (tones tr)) /\
   ((clamp0 e <= clamp0 s)%Q -> StronglySorted Z.ge (tones tr)) /\
   (1 < n -> qle qhalf s = true -> hd 0 (tones tr) = tone_of s) /\
-  (qle qhalf e = true -> last (tones tr) 0 = tone_of e) /\
+  (1 <= n -> qle qhalf e = true -> last (tones tr) 0 = tone_of e) /\
   (delay_sum tr <= Z.max 0 (Qfloor d) /\ (qle q0 d = true -> (inject_Z (delay_sum tr) <= d)%Q)) /\
   sounding_from true tr = false.
 Proof. exact sweep_protocol. Qed.
 Print Assumptions C16_sweep.
 
 (* the delays one by one: every step waits max(0, floor(duration)) / steps ms (integer division), and no delay()
-   is issued when that quotient is 0 *)
+   is issued when that quotient is 0 (nor when there is no step: x / 0 = 0 in Z, and repeat _ 0 = []) *)
 Theorem C16_sweep_delays : forall pin tbl st s e d steps,
-  let n := Z.max 1 (c_int steps) in
+  let n := Z.max 0 (c_int steps) in
   let q := Z.max 0 (Qfloor d) / n in
   delays (snd (dstep pin tbl st (Sweep s e d steps))) =
   if 0 <? q then repeat q (Z.to_nat n) else [].
@@ -157,13 +158,21 @@ Theorem C16_duration_ms : forall d,
 Proof. exact (fun d => conj (c_ulong_max d) (conj (c_ulong_ge0 d) (c_ulong_nonpos d))). Qed.
 Print Assumptions C16_duration_ms.
 
-(* "plays `steps` tones" fails for steps <= 0: the count is clamped to 1 (sweep(440, 880, 50, steps=0)) *)
-Theorem C16_sweep_nonpositive_steps_refuted :
-  exists pin tbl st s e d steps,
-    c_int steps <= 0 /\
-    length (tones (snd (dstep pin tbl st (Sweep s e d steps)))) = 1%nat.
-Proof. exact sweep_nonpositive_steps_refuted. Qed.
-Print Assumptions C16_sweep_nonpositive_steps_refuted.
+(* formerly C16_sweep_nonpositive_steps_refuted (sweep(440, 880, 50, steps=0) sounded tone(880) for 50 ms: the
+   count was clamped to 1): a sweep of no steps starts no tone and does not wait - it silences the pin, nothing
+   else; get_last_frequency is left alone *)
+Theorem C16_sweep_nonpositive_steps : forall pin tbl st s e d steps,
+  c_int steps <= 0 ->
+  dstep pin tbl st (Sweep s e d steps) = (quiet st, [NoTone pin]).
+Proof. exact sweep_nonpositive_steps. Qed.
+Print Assumptions C16_sweep_nonpositive_steps.
+
+(* "sweep plays `steps` tones", for EVERY count (audible ends): exactly max(0, trunc steps) of them *)
+Theorem C16_sweep_tone_count : forall pin tbl st s e d steps,
+  qle qhalf s = true -> qle qhalf e = true ->
+  length (tones (snd (dstep pin tbl st (Sweep s e d steps)))) = Z.to_nat (c_int steps).
+Proof. exact sweep_tone_count. Qed.
+Print Assumptions C16_sweep_tone_count.
 
 (* ---- melody: the generated emitter table plays the pinned score, note by note, at
    60000 / tempo ms per beat; tempo missing or <= 0 => the tune's default tempo *)
@@ -244,7 +253,7 @@ Proof. exact last_frequency_exact. Qed.
 Print Assumptions C16_last_frequency_exact.
 
 Theorem C16_last_frequency_sweep : forall pin tbl st s e d steps,
-  qle qhalf e = true ->
+  1 <= c_int steps -> qle qhalf e = true ->
   (get_last_frequency (fst (dstep pin tbl st (Sweep s e d steps))) == e)%Q.
 Proof. exact last_frequency_sweep. Qed.
 Print Assumptions C16_last_frequency_sweep.
@@ -369,7 +378,13 @@ Example C16_nonvacuous_sweep :
   let tr := snd (dstep 8 emitter_melodies (init (q 440)) (Sweep (q 440) (q 880) (q 50) (q 5))) in
   tones tr = [440; 550; 660; 770; 880] /\ delay_sum tr = 50 /\
   tones (snd (dstep 8 emitter_melodies (init (q 440)) (Sweep (q 440) (q (-5)) (q 50) (q 5))))
-  = [440; 330; 220; 110].
+  = [440; 330; 220; 110] /\
+  (* the former witness of F-C16-sweep-steps-clamped, and one step *)
+  dstep 8 emitter_melodies (mkbz true (q 660) (q 660)) (Sweep (q 440) (q 880) (q 50) (q 0))
+  = (mkbz false q0 (q 660), [NoTone 8]) /\
+  snd (dstep 8 emitter_melodies (init (q 440)) (Sweep (q 440) (q 880) (q 50) (q (-3)))) = [NoTone 8] /\
+  snd (dstep 8 emitter_melodies (init (q 440)) (Sweep (q 440) (q 880) (q 50) (q 1)))
+  = [Tone 8 880; Delay 50; NoTone 8].
 Proof. vm_compute. repeat split. Qed.
 Print Assumptions C16_nonvacuous_sweep.
 
